@@ -17,3 +17,14 @@ Example C07_example :
   all_doneb s = true /\ res_colx (tpe [7; 8; 9; 7] ops) (ws s) = [7; 7; 8; 8; 7; 7; 9; 9] /\
   map seen (ws s) = [[0; 1; 3]; [2]].
 Proof. vm_compute. repeat split. Qed.
+
+From OrxPar Require Import MachineIter MachineIterP MasterIter.
+
+(** the same over a by-value iterator source *)
+Theorem C07_collect_x_iter : forall (V : Type) (src : list V) (ops : list (op V)) (r : Runner)
+  (ordered : bool) (sched : list nat),
+  runner_wf r -> iall_done (imrun r (tlen src ops) ordered (@nostop) sched) ->
+  Permutation (res_colx (tpe src ops) (map wk (iws (imrun r (tlen src ops) ordered (@nostop) sched))))
+              (seq_chain (stages_of ops) src).
+Proof. intros V src ops r ordered sched Hw Hd. apply iter_collect_x; assumption. Qed.
+Print Assumptions C07_collect_x_iter.
